@@ -378,6 +378,7 @@ func c03Run(c *core.Ctx) {
 			}
 		})
 	}
+	c03Chains(c)
 	// B. operators
 	maxOps := 3
 	if c.Thorough() {
@@ -475,10 +476,97 @@ func init() {
 		Prop: "C03", Level: "model_checking", Exhaust: true, QuickSecs: 500, ThorSecs: 3000,
 		Rule: "A (generic): every sentence of the E-lr corpora the reference LR driver accepts (rules, 2-paths; thorough: nullable combinations, 3-paths) under every version of its family, and every token replaced by every alternative lexeme (letter case, cast spellings, synonyms => the very same tree; literal forms => the same node kinds): zero errors, every token's text allowed by the slot vocabulary for the (kind, slot) holding it. " +
 			"B (operators): every flat expression with <= 3 (thorough 4) operators over 28 binary, 14 assignment, 18 prefix operators, ++/--, both ternaries and instanceof, distinct atoms, under 7.4 and 5.6: the tree must equal the one an independent precedence-climbing model of the PHP manual's operator table gives, and expressions the model rejects (non-associative chains) must be rejected. " +
-			"C: hand-written construct schemas (source => expected kind(role:child) rendering) for the constructs whose roles can be confused; D: every if/else nesting without braces to depth 3 (thorough 4) — else belongs to the nearest if; E: literal forms (int/float classification at the overflow boundary, radix prefixes, separators, strings, heredoc/nowdoc parts verbatim); F: version-gated constructs under 10 versions. " +
+			"B2: every postfix chain of <= 4 (thorough 5) operations (property, method call, offsets, call, static members) on a variable and on a name: accepted iff the reference LR driver accepts it, and under PHP 7 the tree of a chain on a variable is the left-to-right fold. C: hand-written construct schemas (source => expected kind(role:child) rendering) for the constructs whose roles can be confused; D: every if/else nesting without braces to depth 3 (thorough 4) — else belongs to the nearest if; E: literal forms (int/float classification at the overflow boundary, radix prefixes, separators, strings, heredoc/nowdoc parts verbatim); F: version-gated constructs under 10 versions. " +
 			"states = flat expressions enumerated and judged by the operator model, transitions = model verdicts (accept/reject/expected tree) replayed on the real parser, traces = corpus sentences classified by the reference LR driver and replayed. non-trivial = program parsed; distinct by (version, expectation, source)",
 		Assume: []string{"M-syn (mc/synm) transcribes the PHP manual: operator table, construct shapes, literal forms, version gating"},
 		Run:    c03Run,
 		Replay: replaySrc(c03One),
 	})
+}
+
+// chainSX: the tree PHP 7 prescribes for a postfix chain on a variable — operations apply left to right
+// (uniform variable syntax).
+func chainSX(ch corpus.Chain) string {
+	cur := ch.Base
+	prevKind, prevOperand := "", ""
+	for _, o := range ch.Ops {
+		before := cur
+		if o.Kind == "call" {
+			// `X->b()`, `X->$p()`, `X::c()` and `X::$s()` are calls of the member, not of the fetched value
+			switch prevKind {
+			case "prop":
+				cur = "MethodCall(Var:" + prevOperand + " Method:b)"
+				prevKind = "method"
+				continue
+			case "propv":
+				cur = "MethodCall(Var:" + prevOperand + " Method:$p)"
+				prevKind = "method"
+				continue
+			case "cconst":
+				cur = "StaticCall(Class:" + prevOperand + " Call:c)"
+				prevKind = "scall"
+				continue
+			case "sprop":
+				cur = "StaticCall(Class:" + prevOperand + " Call:$s)"
+				prevKind = "scall"
+				continue
+			}
+		}
+		prevKind, prevOperand = o.Kind, before
+		switch o.Kind {
+		case "prop":
+			cur = "PropertyFetch(Var:" + cur + " Prop:b)"
+		case "propv":
+			cur = "PropertyFetch(Var:" + cur + " Prop:$p)"
+		case "method":
+			cur = "MethodCall(Var:" + cur + " Method:b)"
+		case "dim":
+			cur = "ArrayDimFetch(Var:" + cur + " Dim:int:0)"
+		case "dimc":
+			cur = "ArrayDimFetch(Var:" + cur + " Dim:int:1)"
+		case "call":
+			cur = "FunctionCall(Function:" + cur + ")"
+		case "cconst":
+			cur = "ClassConstFetch(Class:" + cur + " Const:c)"
+		case "sprop":
+			cur = "StaticPropertyFetch(Class:" + cur + " Prop:$s)"
+		case "scall":
+			cur = "StaticCall(Class:" + cur + " Call:m)"
+		}
+	}
+	return cur
+}
+
+// c03Chains: postfix chains — validity from the reference LR driver (both families); for PHP 7 chains on a
+// variable the expected tree is the left-to-right fold.
+func c03Chains(c *core.Ctx) {
+	n := 4
+	if c.Thorough() {
+		n = 5
+	}
+	f7, f5 := corpus.MustFam("php7"), corpus.MustFam("php5")
+	for _, ch := range corpus.ChainExprs(n) {
+		if !c.Next() {
+			continue
+		}
+		src := "<?php " + ch.Expr + ";"
+		for _, f := range []*corpus.Fam{f7, f5} {
+			it := f.FromSource(src, "postfix chain")
+			if !it.ScanOK {
+				continue
+			}
+			c.P.Traces++
+			cs := mkCase(src, f.V, "postfix chain accepted by the reference LR driver")
+			switch {
+			case !it.Valid:
+				cs.Aux, cs.Why = "invalid", "postfix chain rejected by the reference LR driver"
+			case f == f7 && ch.Base == "$a":
+				cs.Aux = "sx:" + chainSX(ch)
+				cs.Why = "postfix chain (left-to-right fold)"
+			default:
+				cs.Aux = "valid"
+			}
+			c03One(c, cs)
+		}
+	}
 }
